@@ -285,6 +285,15 @@ func embedCases() []*Case {
 
 func jsonTagCases() []*Case {
 	var out []*Case
+	{
+		// distinct last elements: a generator that takes anything but the first element still compiles
+		root := &dsl.Message{Name: "Root", Fields: []*dsl.Field{
+			{Name: "X", Num: 1, T: dsl.String, JSONTag: dsl.S("alpha,omitempty")},
+			{Name: "my_other", Num: 2, T: dsl.Int32, JSONTag: dsl.S("beta,string")},
+			{Name: "Third", Num: 3, T: dsl.Bool, JSONTag: dsl.S("gamma,omitempty,string")},
+		}}
+		out = append(out, &Case{Label: "F1/jsontag/multi", Family: "F1", Tags: map[string]string{"card": "single", "vt": "jsontag", "class": "scalar", "pos": "P0"}, File: newFile(root), Cfg: BaseConfig("Root")})
+	}
 	for i, tag := range []string{"renamed", "renamed,omitempty", "-", ""} {
 		root := &dsl.Message{Name: "Root", Fields: []*dsl.Field{
 			{Name: "X", Num: 1, T: dsl.String, JSONTag: dsl.S(tag)},
@@ -553,6 +562,33 @@ func Variant(c *Case, sortOn bool, separate bool, mix string) *Case {
 		for i, p := range paths {
 			n.Cfg.NameOverrides[p] = fmt.Sprintf("ovr_%d", i)
 		}
+	case "bothnames":
+		// both key forms for every field, with different values: the full path is the more specific key
+		n.Cfg.NameOverrides = map[string]string{}
+		for i, k := range AllTypeKeys(c.File, c.Cfg) {
+			n.Cfg.NameOverrides[k] = fmt.Sprintf("tk_%d", i)
+		}
+		for i, p := range paths {
+			n.Cfg.NameOverrides[p] = fmt.Sprintf("ovr_%d", i)
+		}
+	case "typekey-options":
+		// every field-addressed option in the short Message.Field form
+		n.Cfg.NameOverrides = map[string]string{}
+		n.Cfg.Validators = map[string][]string{}
+		tks := AllTypeKeys(c.File, c.Cfg)
+		for i, k := range tks {
+			n.Cfg.NameOverrides[k] = fmt.Sprintf("tk_%d", i)
+			switch i % 4 {
+			case 0:
+				n.Cfg.Computed = append(n.Cfg.Computed, k)
+			case 1:
+				n.Cfg.Sensitive = append(n.Cfg.Sensitive, k)
+			case 2:
+				n.Cfg.Required = append(n.Cfg.Required, k)
+			case 3:
+				n.Cfg.Validators[k] = []string{fmt.Sprintf("%s.V(%d)", dsl.TFX, i)}
+			}
+		}
 	case "typenames":
 		// overrides keyed by Message.Field
 		n.Cfg.NameOverrides = map[string]string{}
@@ -596,7 +632,8 @@ func F5File() *dsl.File {
 		msg("Tiny", 3, "Tiny"),
 	}}
 	tiny := &dsl.Message{Name: "Tiny", Fields: []*dsl.Field{f("On", 1, dsl.Bool), f("N", 2, dsl.Int32)}}
-	deep := &dsl.Message{Name: "Deep", Fields: []*dsl.Field{msg("Inner", 1, "Shared"), {Name: "Tags", Num: 2, T: dsl.String, Card: dsl.Repeated}}}
+	deep := &dsl.Message{Name: "Deep", Fields: []*dsl.Field{msg("Inner", 1, "Shared"), {Name: "Tags", Num: 2, T: dsl.String, Card: dsl.Repeated},
+		{Name: "ByName", Num: 3, T: dsl.Msg, Ref: "Tiny", Card: dsl.Map}, {Name: "Parts", Num: 4, T: dsl.Msg, Ref: "Tiny", Card: dsl.Repeated, Nullable: dsl.B(false)}}}
 	return &dsl.File{GettersOff: true, Messages: []*dsl.Message{alpha, beta, gamma, delta, shared, tiny, deep}}
 }
 
